@@ -9,7 +9,7 @@ git -C /repo apply $D/patch.diff || { echo "patch does not apply to /repo HEAD";
 cd /verif
 VERIF_TARGET=${VERIF_TARGET:-/verif/target} python3 tools/vcheck.py $P "$@" > /tmp/seed_$S.log 2>&1; rc=$?
 git -C /repo checkout -- .
-cp /verif/evidence/$P.json /tmp/seed_${S}_evidence.json 2>/dev/null
+
 git -C /verif checkout -- evidence/$P.json 2>/dev/null
 python3 - "$D/meta.json" "$rc" /tmp/seed_$S.log <<'PY'
 import json,sys,re
